@@ -21,7 +21,8 @@ RULE = (
     "priority maps with non-empty duplicate-free lists, reverse maps with groups, EPM dict lists with optional keys "
     "omitted, JSON-LD contexts mixing string terms, {'@id','@prefix':true} terms, @-keywords, the empty key and other terms "
     "(dicts without @prefix, @prefix false, numbers, null, lists), rdflib graphs / namespace managers created with "
-    "bind_namespaces='none' (incl. the default namespace), non-bijective dicts for upgrade_prefix_map; every input also in "
+    "bind_namespaces='none' (incl. the default namespace; bindings in the graph's own store, in a namespace manager borrowed "
+    "from another graph, made through the manager, re-bound with replace=True, or on top of rdflib's built-in sets), non-bijective dicts for upgrade_prefix_map; every input also in "
     "a shuffled dictionary order; every JSON input also written to a temp file and loaded via str and via Path. "
     "One evaluation = one input: records equal the expectation derived from the input by the documented rule (ties between "
     "equally short reverse-map URI prefixes are free), query answers on boundary probes equal the model built from that "
@@ -91,6 +92,9 @@ def cases(draw, tier="quick", kind=None):
         us = draw(S.url_pool(n, n))
         case["data"] = [[p, u] for p, u in zip(ps, us)]
         case["manager"] = draw(st.booleans())
+        # how the graph came to its bindings: its own store, a namespace manager borrowed from another graph (the
+        # documented way of sharing bindings), bound through the manager object, with rdflib's built-in binding sets
+        case["setup"] = draw(st.sampled_from(["own", "own", "borrowed", "borrowed-then-bind", "via-manager", "core", "rdflib-defaults", "rebound"]))
     else:  # upgrade: non-bijective
         ps = draw(_strs(S.CURIE_ALPHA, 0, 7))
         upool = draw(S.uri_pool(1, 4))
@@ -236,9 +240,36 @@ def check(case, stats: Stats) -> None:
     elif kind == "rdflib":
         import rdflib
 
-        g = rdflib.Graph(bind_namespaces="none")
-        for p, u in data:
-            g.bind(p, rdflib.Namespace(u))
+        setup = case.get("setup", "own")
+        stats.cls("rdflib-setup:" + setup)
+        if setup in ("borrowed", "borrowed-then-bind"):
+            lender = rdflib.Graph(bind_namespaces="none")
+            g = rdflib.Graph(bind_namespaces="none")
+            g.bind("shadowed", rdflib.Namespace("http://only-in-own-store/"))
+            g.namespace_manager = lender.namespace_manager
+            for p, u in data[: len(data) // 2] if setup == "borrowed-then-bind" else data:
+                lender.bind(p, rdflib.Namespace(u))
+            if setup == "borrowed-then-bind":
+                for p, u in data[len(data) // 2:]:
+                    g.bind(p, rdflib.Namespace(u))
+        elif setup == "via-manager":
+            g = rdflib.Graph(bind_namespaces="none")
+            for p, u in data:
+                g.namespace_manager.bind(p, rdflib.URIRef(u))
+        elif setup in ("core", "rdflib-defaults"):
+            g = rdflib.Graph(bind_namespaces="core") if setup == "core" else rdflib.Graph()
+            for p, u in data:
+                g.bind(p, rdflib.Namespace(u))
+        elif setup == "rebound":
+            g = rdflib.Graph(bind_namespaces="none")
+            for p, u in data:
+                g.bind(p, rdflib.Namespace(u + "old/"))
+            for p, u in data:
+                g.bind(p, rdflib.Namespace(u), replace=True)
+        else:
+            g = rdflib.Graph(bind_namespaces="none")
+            for p, u in data:
+                g.bind(p, rdflib.Namespace(u))
         listed = [(str(p), str(ns)) for p, ns in g.namespaces()]
         if len({u for _, u in listed}) != len(listed) or len({p for p, _ in listed}) != len(listed):
             stats.cls("rdflib:duplicate-in-namespaces-listing-skipped")
@@ -297,11 +328,11 @@ SUBS = [
     _sub("reverse", 250, 1000),
     _sub("epm", 200, 800),
     _sub("jsonld", 250, 1000),
-    _sub("rdflib", 150, 600),
+    _sub("rdflib", 250, 800),
     _sub("upgrade", 250, 1000),
 ]
 SUBS[0].required_classes = ("loader:prefix_map",)
 SUBS[1].required_classes = ("loader:priority", "nt:several-uri-prefixes-for-one-prefix")
 SUBS[4].required_classes = ("loader:jsonld", "nt:ignored-jsonld-terms-present")
-SUBS[5].required_classes = ("loader:rdflib", "nt:default-namespace")
+SUBS[5].required_classes = ("loader:rdflib", "nt:default-namespace", "rdflib-setup:borrowed", "rdflib-setup:own")
 SUBS[6].required_classes = ("loader:upgrade", "nt:several-prefixes-for-one-uri-prefix")
